@@ -387,6 +387,10 @@ func (rt *runtime) convertCallParameter(v Value, t reflect.Type) (reflect.Value,
 				}
 				return gso.value, nil
 			}
+			// a bridged *T where a T is wanted: the pointee
+			if gso.value.Kind() == reflect.Ptr && !gso.value.IsNil() && gso.value.Type().Elem().AssignableTo(t) {
+				return gso.value.Elem(), nil
+			}
 		}
 
 		if gao, ok := v.object().value.(*goArrayObject); ok {
@@ -589,7 +593,9 @@ func (rt *runtime) convertCallParameter(v Value, t reflect.Type) (reflect.Value,
 			}), nil
 		}
 	case reflect.Struct:
-		if o := v.object(); o != nil && o.class == classObjectName {
+		// Only a script object can be read property by property: a bridged Go struct or
+		// map keeps its contents in Go, its script-side property table is empty.
+		if o := v.object(); o != nil && o.class == classObjectName && o.objectClass == classObject {
 			s := reflect.New(t)
 
 			for _, k := range o.propertyOrder {
